@@ -91,7 +91,7 @@ namespace cgi {
 		void on_headers_chunk_read(booster::system::error_code const &e,size_t ,handler const &h)
 		{
 			if(e) { h(e); return; }
-			if(buffer_.back()!=',') {
+			if(buffer_.back()!=',' || buffer_[buffer_.size()-2]!=0) {
 				buffer_.back() = 0;
 				// make sure it is NUL terminated
 				h(booster::system::error_code(errc::protocol_violation,cppcms_category));
